@@ -65,6 +65,7 @@ type SQLSite struct {
 	XformBy     string
 	IsSchema    bool   // executes the embedded schema script
 	evalFrame   *frame // when set, positional bindings are evaluated in this calling context
+	posVia      map[int]*ssa.Call // positional arguments that an accessor of the package packed into the slice
 }
 
 func (s *SQLSite) key(m *Model, v *Variant) string {
@@ -96,6 +97,9 @@ func (s *SQLSite) bindingFor(p *sqlp.Expr) (Binding, bool) {
 		fr := topFrame(s.Fn)
 		if s.evalFrame != nil {
 			fr = s.evalFrame
+		}
+		if via := s.posVia[p.Param-1]; via != nil {
+			fr = fr.inline(via, via.Common().StaticCallee())
 		}
 		return Binding{V: s.Positional[p.Param-1], Fr: fr}, true
 	}
@@ -190,6 +194,18 @@ func (m *Model) foldSite(site *SQLSite, args []ssa.Value) {
 	// arguments
 	if len(args) > 1 {
 		vals, dyn := varargValues(args[1])
+		var via *ssa.Call
+		if dyn {
+			// `q.Exec(stmt, c.ddocArgs(name)...)`: the slice is built by a straight-line accessor
+			if call, ok := stripConv(args[1]).(*ssa.Call); ok {
+				if rv, _ := m.accessorResultX(call, 0, topFrame(site.Fn), true); rv != nil {
+					if v2, d2 := varargValues(rv); !d2 {
+						vals, dyn, via = v2, false, call
+						fr = topFrame(site.Fn).inline(call, call.Common().StaticCallee())
+					}
+				}
+			}
+		}
 		if dyn {
 			site.DynamicArgs = true
 			// named arguments created anywhere in the enclosing declared function
@@ -216,6 +232,12 @@ func (m *Model) foldSite(site *SQLSite, args []ssa.Value) {
 							continue
 						}
 					}
+				}
+				if via != nil {
+					if site.posVia == nil {
+						site.posVia = map[int]*ssa.Call{}
+					}
+					site.posVia[len(site.Positional)] = via
 				}
 				site.Positional = append(site.Positional, v)
 			}
@@ -333,11 +355,17 @@ func (m *Model) classifyHandle(v ssa.Value, fr *frame, out map[HandleClass]bool,
 		} else if al, ok := x.X.(*ssa.Alloc); ok {
 			// a local cell (e.g. a result spilled because of a defer): follow its stores
 			n := 0
-			for _, ref := range *al.Referrers() {
-				if st, ok := ref.(*ssa.Store); ok && st.Addr == al {
-					n++
-					m.classifyHandle(st.Val, fr, out, seen, depth+1)
+			for _, st := range cellStores(al) {
+				// (stores made by closures that capture the cell included, e.g. the body handed to a lock helper)
+				n++
+				sfr := fr
+				if st.Parent() != al.Parent() {
+					sfr = m.closureFrame(st.Parent())
 				}
+				if c, isC := st.Val.(*ssa.Const); isC && c.Value == nil {
+					continue // the zero value before the assignment
+				}
+				m.classifyHandle(st.Val, sfr, out, seen, depth+1)
 			}
 			if n == 0 {
 				out[HUnknown] = true
